@@ -128,7 +128,8 @@ def run(ctx):
         w = [to_number(t) for t in vec]
         pop = random_population(rnd, n)
         use_gold = rnd.random() < 0.3
-        uid = rnd.choice(gold_ids) if use_gold else rnd.choice(["u%d" % rnd.randrange(10**9), "", "é", "x" * 100, str(rnd.random())])
+        uid = rnd.choice(gold_ids) if use_gold else rnd.choice(["u%d" % rnd.randrange(10**9), "", "é", "x" * 100, str(rnd.random()), " u%d" % rnd.randrange(99), "%d\n" % rnd.randrange(99),
+                                                                   " ", "\tid ", "a b"])
         special = n >= 2 and (use_gold or any(x == 0 for x in w))
         conf = dict(input_id=uid, population_type=type(pop).__name__, n=n, weights=vec)
 
